@@ -51,6 +51,19 @@ theorem firstPair_none (gs : List (Group K)) (h : firstPair gs = none) (m k : Na
   rw [pairPred_eq gs m k (by omega) hk] at this
   simpa using this
 
+/-- `firstPair` finds nothing exactly when no pair of cached extents intersects (inclusive test: sharing a single pixel
+row or column counts), whatever the number of groups -/
+theorem firstPair_none_iff (gs : List (Group K)) :
+    firstPair gs = none ↔ ∀ (m k : Nat) (_ : m < k) (hk : k < gs.length), intersect (gs[m]'(by omega)).extent gs[k].extent = false := by
+  constructor
+  · intro h m k hmk hk; exact firstPair_none gs h m k hmk hk
+  · intro h
+    rw [firstPair_eq, List.find?_eq_none]
+    rintro ⟨m, k⟩ hmem
+    rw [mem_pairIdx] at hmem
+    rw [pairPred_eq gs m k (by omega) hmem.2, h m k hmem.1 hmem.2]
+    simp
+
 /-! ### one step of `_disjoint` -/
 
 /-- `fields[m]['field'].extend(fields[n]['field']); fields[m]['extent'] = boundary(fields[m]['field'])` -/
